@@ -256,3 +256,15 @@ Definition attribute_two_slashes (files : list hdr) (tags : list string) : list 
   if two_slashes files && existsb (String.eqb s_notfix) tags
   then "viol:installed-directory-trailing-slash-trimmed-once-per-write" :: filter (fun t => negb (t =? s_notfix)) tags
   else tags.
+
+(* ---- passwd / group readers on any text: one entry per line -----------------------------
+   Whatever the text (the last line terminated or not, LF or CRLF), a reader that
+   succeeds returns exactly one entry per line: no line is dropped (in particular
+   not an unterminated last one) and none is invented.  Lines are counted on the
+   text itself, independently of the model's reader. *)
+Definition text_line_count (s : string) : nat := List.length (raw_lines s).
+Definition entry_count_tags {A} (k : string) (text : string) (rb : res (list A)) : list string :=
+  match rb with
+  | Ok l => tag_if (negb (Nat.eqb (List.length l) (text_line_count text))) ("viol:" +++ k +++ "-entry-count-differs-from-line-count")
+  | _ => []
+  end.
